@@ -25,6 +25,14 @@ EXPLANATION = (
 EXPLANATION += (
     ' C15.1 also covers every `self.M[K] = V` outside construction, whatever guards it: V may depend on no argument of the storing function that is not part of K, and may not be chosen by whether another lazily filled attribute has been loaded yet (`self.X is None`).'
 )
+EXPLANATION += (
+    ' ADDED (session 4): C15.7 - a lazily filled memo (an attribute initialised to an empty dict in the constructor and '
+    'filled by subscript stores elsewhere, e.g. variant_headers) may be consulted per key only (k in memo, memo[k], '
+    'memo.get(k)); its size, truth value, key set or iteration order is the history of earlier calls and must not reach a '
+    'decision or a result. C15.5 now reads the value of self.local at each read_range binding from the path facts (set '
+    'earlier on the path or tested by the enclosing if), C15.6 treats statements control-dependent on `preload` as flows '
+    '(only loading / dropping the in-memory copy, diagnostics and errors may depend on it).'
+)
 ASSUMPTIONS = [
     'functools.lru_cache keys on all call arguments (including self, by identity when __eq__/__hash__ are not defined)',
     'single-threaded use of one reader (concurrent use is not in the statement)',
@@ -292,6 +300,7 @@ def run(ctx):
                          key_extra='%s|%s' % (m['name'], attr), line=node.lineno)
         else:
             ctx.ok('C15.1', m['func'], m['name'], 'read-set (%d attributes) is init-only or memoised' % len(reads))
+    memo_state(ctx)
     mutation(ctx, eff, memos)
     identity(ctx, eff, memos)
     preload_equiv(ctx)
@@ -349,6 +358,57 @@ def mutation(ctx, eff, memos):
         ctx.ok('C15.2', f, 'aliases %s' % sorted(aliases), 'aliases of memoised results are only read') \
             if not any(x.rule == 'C15.2' and x.func == f.qualname for x in ctx.findings) else None
     ctx.floor('C15.2', 5, 'functions holding aliases of memoised results')
+
+
+def memo_state(ctx):
+    """C15.7: how full a lazily filled memo is - which keys earlier calls happened to load - is history.  Code may ask a
+    memo only about the key it is about to use (k in memo, memo[k], memo.get(k)); its size, truth value, key set or
+    iteration order must not reach a decision or a result."""
+    from ..footer import lazy_memo_attrs
+    P = ctx.P
+    ctx.rule('C15.7', 'a lazily filled memo is consulted per key only: never by size, truth value, key set or iteration')
+    n = 0
+    for cls in RF.reader_classes(P):
+        memos_ = lazy_memo_attrs(P, cls)
+        for attr in sorted(memos_):
+            for c in [cls] + cls.all_subclasses():
+                for m in c.methods.values():
+                    for x in ast.walk(m.node):
+                        if not (isinstance(x, ast.Attribute) and x.attr == attr and isinstance(x.value, ast.Name) and
+                                x.value.id == 'self' and isinstance(x.ctx, ast.Load)):
+                            continue
+                        p = parent(x)
+                        n += 1
+                        how = None
+                        if isinstance(p, ast.Subscript) and p.value is x:
+                            continue                                   # memo[k] (load or store)
+                        if isinstance(p, ast.Compare) and x in p.comparators and all(isinstance(o, (ast.In, ast.NotIn)) for o in p.ops):
+                            continue                                   # k in memo
+                        if isinstance(p, ast.Attribute) and p.attr in ('get', 'setdefault', 'pop', '__contains__', '__getitem__'):
+                            continue
+                        if isinstance(p, ast.Call) and U(p.func) == 'len':
+                            how = 'its size len(self.%s)' % attr
+                        elif isinstance(p, (ast.If, ast.While, ast.IfExp, ast.BoolOp)) or (isinstance(p, ast.UnaryOp) and isinstance(p.op, ast.Not)):
+                            how = 'its truth value'
+                        elif isinstance(p, (ast.For, ast.comprehension)) and p.iter is x:
+                            how = 'iteration over it (the order and set of keys loaded so far)'
+                        elif isinstance(p, ast.Attribute) and p.attr in ('keys', 'items', 'values', 'copy'):
+                            how = 'self.%s.%s()' % (attr, p.attr)
+                        elif isinstance(p, ast.Call) and U(p.func) in ('list', 'sorted', 'tuple', 'set', 'dict', 'bool', 'any', 'all'):
+                            how = '%s(self.%s)' % (U(p.func), attr)
+                        elif isinstance(p, ast.Compare):
+                            how = 'a comparison of the whole memo'
+                        elif isinstance(p, (ast.Return, ast.Assign)) or (isinstance(p, ast.Call) and x in p.args):
+                            # handing the memo object itself on is aliasing (C15.2), not a use of its state
+                            continue
+                        if how:
+                            ctx.fail('C15.7', m, enclosing_stmt(x), 'the lazily filled memo self.%s is consulted by %s: what earlier '
+                                     'calls happened to load then decides what this call does or returns' % (attr, how),
+                                     line=x.lineno, key_extra=attr)
+    if n < 5:
+        raise AnalysisError('uses of lazily filled memos: found %d, floor 5' % n)
+    if not any(fd.rule == 'C15.7' for fd in ctx.findings):
+        ctx.ok('C15.7', None, '%d uses of lazily filled memos' % n, 'only per-key membership tests, look-ups and stores')
 
 
 def identity(ctx, eff, memos):
